@@ -70,20 +70,21 @@ type Stmt struct {
 
 // Verbs
 const (
-	VCreateDB    = "CREATE DATABASE"
-	VCreateTable = "CREATE TABLE"
-	VCreateView  = "CREATE VIEW"
-	VCreateMV    = "CREATE MATERIALIZED VIEW"
-	VDropTable   = "DROP TABLE"
-	VDropView    = "DROP VIEW"
-	VRename      = "RENAME TABLE"
-	VExchange    = "EXCHANGE TABLES"
-	VAlter       = "ALTER TABLE"
-	VInsert      = "INSERT"
-	VSelectVer   = "SELECT_VER"
-	VSelectSet   = "SELECT_SETTING"
-	VShowTables  = "SHOW TABLES"
-	VSelectCount = "SELECT_COUNT"
+	VCreateDB     = "CREATE DATABASE"
+	VCreateTable  = "CREATE TABLE"
+	VCreateView   = "CREATE VIEW"
+	VCreateMV     = "CREATE MATERIALIZED VIEW"
+	VDropTable    = "DROP TABLE"
+	VDropView     = "DROP VIEW"
+	VRename       = "RENAME TABLE"
+	VExchange     = "EXCHANGE TABLES"
+	VSelectVerAll = "SELECT k, max(ver) GROUP BY k"
+	VAlter        = "ALTER TABLE"
+	VInsert       = "INSERT"
+	VSelectVer    = "SELECT_VER"
+	VSelectSet    = "SELECT_SETTING"
+	VShowTables   = "SHOW TABLES"
+	VSelectCount  = "SELECT_COUNT"
 )
 
 type parser struct {
@@ -690,6 +691,8 @@ func (p *parser) selectStmt(s *Stmt) {
 		s.Verb = VSelectSet
 	case match("count", "(", "1", ")", "FROM", "<name>"):
 		s.Verb = VSelectCount
+	case match("k", ",", "max", "(", "ver", ")", "as", "ver", "FROM", "<name>", "GROUP", "BY", "k"):
+		s.Verb = VSelectVerAll
 	default:
 		p.fail("SELECT shape not modelled")
 	}
